@@ -275,6 +275,20 @@ func genPath(r *RNG, t *gty) []pstep {
 	return p
 }
 
+func everyStep() []pstep {
+	return []pstep{
+		{"SBase", "Base", func(c gotypes.Component) gotypes.Component { return c.Base() }},
+		{"SLen", "Len", func(c gotypes.Component) gotypes.Component { return c.Len() }},
+		{"SCap", "Cap", func(c gotypes.Component) gotypes.Component { return c.Cap() }},
+		{"SReal", "Real", func(c gotypes.Component) gotypes.Component { return c.Real() }},
+		{"SImag", "Imag", func(c gotypes.Component) gotypes.Component { return c.Imag() }},
+		{"(SIndex 0)", "Index(0)", func(c gotypes.Component) gotypes.Component { return c.Index(0) }},
+		{"(SIndex 1)", "Index(1)", func(c gotypes.Component) gotypes.Component { return c.Index(1) }},
+		{"(SField \"nope\")", "Field(nope)", func(c gotypes.Component) gotypes.Component { return c.Field("nope") }},
+		{"(SDeref 256)", "Deref(RAX)", func(c gotypes.Component) gotypes.Component { return c.Dereference(reg.RAX) }},
+	}
+}
+
 func resolveObs(comp func() gotypes.Component, path []pstep) (s string) {
 	defer func() {
 		if recover() != nil {
@@ -423,8 +437,27 @@ func c07(c *Ctx) {
 		var pdesc []string
 		addPaths := func(vs []pv, isres bool, t *gotypes.Tuple) {
 			for i, v := range vs {
-				for k := 0; k < 3; k++ {
-					path := genPath(rng, v.t)
+				// every accessor at the root and after a prefix of a fitting path: the ones that do not fit the
+				// component's type must be refused, whatever the type (a capacity of a string, a length of an array...)
+				var sweep [][]pstep
+				if j < 150 || c.Thorough() {
+					for _, st := range everyStep() {
+						sweep = append(sweep, []pstep{st})
+					}
+					if pre := genPath(rng, v.t); len(pre) > 0 {
+						pre = pre[:1+rng.Intn(len(pre))]
+						for _, st := range everyStep() {
+							sweep = append(sweep, append(append([]pstep{}, pre...), st))
+						}
+					}
+				}
+				for k := 0; k < 3+len(sweep); k++ {
+					var path []pstep
+					if k < 3 {
+						path = genPath(rng, v.t)
+					} else {
+						path = sweep[k-3]
+					}
 					ii := i
 					ob := resolveObs(func() gotypes.Component { return t.At(ii) }, path)
 					var cs, ds []string
